@@ -47,8 +47,12 @@ const (
 	ptInvokeCallback
 	ptPhiStruct
 	ptCellViaHelper
+	ptCallViaLibrary
 	ptNumTransports
 )
+
+// VerifNumTransports is the number of transports of the generated program family.
+const VerifNumTransports = ptNumTransports
 
 type verifPtrCall struct {
 	Site   ssa.CallInstruction
@@ -73,6 +77,7 @@ type verifPtrWorld struct {
 	swapFn                                *ssa.Function
 	global                                *ssa.Global
 	nclo                                  int
+	libDo                                 *ssa.Function
 
 	// emission state (current function and block)
 	fn     *ssa.Function
@@ -241,8 +246,9 @@ func verifNewPtrWorld(mode int) *verifPtrWorld {
 	}
 	// interface I { M(*int) *int } and two implementations T0, T1 (empty structs) whose M returns its argument
 	w.iM = types.NewFunc(token.NoPos, w.tpkg, "M", fnSig)
-	// unexported method  run(f func(*int) *int, p *int)  : calls f(p) and stores the result into the global
-	runSig := w.sig([]types.Type{w.FN, w.P}, nil)
+	// unexported method  run(s S, f func(*int) *int, p *int)  : calls f(p) and stores the result into the global; the
+	// by-value struct parameter occupies several nodes of the pointer analysis' parameter block
+	runSig := w.sig([]types.Type{w.S, w.FN, w.P}, nil)
 	w.iRun = types.NewFunc(token.NoPos, w.tpkg, "run", runSig)
 	w.I = types.NewInterfaceType([]*types.Func{w.iM, w.iRun}, nil).Complete()
 	var recvT []*types.Var
@@ -276,11 +282,38 @@ func verifNewPtrWorld(mode int) *verifPtrWorld {
 	verifSetUnexported(w.global, "object", gv)
 	w.pkg.Members["G"] = w.global
 	w.objs[gv] = w.global
+	// a library package whose import path starts with "runtime/" :  func Do(f func(*T) *T, p *T) *T { return f(p) }
+	{
+		ltp := types.NewPackage("runtime/pprof", "pprof")
+		ltp.MarkComplete()
+		lpkg := &ssa.Package{Pkg: ltp, Members: map[string]ssa.Member{}, Prog: w.prog}
+		pk := map[*types.Package]*ssa.Package{w.tpkg: w.pkg, ltp: lpkg}
+		verifSetUnexported(w.prog, "packages", pk)
+		do := &ssa.Function{Pkg: lpkg, Prog: w.prog, Signature: w.sig([]types.Type{w.FN, w.P}, []types.Type{w.P})}
+		verifSetUnexported(do, "name", "Do")
+		lpkg.Members["Do"] = do
+		w.funcs[do] = true
+		fp := w.param(do, "f", w.FN, nil)
+		pp := w.param(do, "p", w.P, nil)
+		c := &ssa.Call{}
+		c.Call.Value = fp
+		c.Call.Args = []ssa.Value{pp}
+		verifSetUnexported(c, "typ", w.P)
+		w.simpleFn(do, []ssa.Instruction{c, &ssa.Return{Results: []ssa.Value{c}}})
+		linit := &ssa.Function{Pkg: lpkg, Prog: w.prog, Signature: w.sig(nil, nil)}
+		verifSetUnexported(linit, "name", "init")
+		lpkg.Members["init"] = linit
+		w.funcs[linit] = true
+		w.simpleFn(linit, []ssa.Instruction{&ssa.Return{}})
+		verifSetUnexported(lpkg, "objects", map[types.Object]ssa.Member{})
+		w.libDo = do
+	}
 	for k := 0; k < 2; k++ {
 		named := w.namedT[k].(*types.Named)
+		sv := types.NewVar(token.NoPos, w.tpkg, "s", w.S)
 		fv := types.NewVar(token.NoPos, w.tpkg, "f", w.FN)
 		pv := types.NewVar(token.NoPos, w.tpkg, "p", w.P)
-		rsig := types.NewSignatureType(recvT[k], nil, nil, types.NewTuple(fv, pv), nil, false)
+		rsig := types.NewSignatureType(recvT[k], nil, nil, types.NewTuple(sv, fv, pv), nil, false)
 		robj := types.NewFunc(token.NoPos, w.tpkg, "run", rsig)
 		named.AddMethod(robj)
 		f := &ssa.Function{Pkg: w.pkg, Prog: w.prog, Signature: rsig}
@@ -288,6 +321,7 @@ func verifNewPtrWorld(mode int) *verifPtrWorld {
 		verifSetUnexported(f, "object", robj)
 		w.funcs[f] = true
 		w.param(f, "t", named, recvT[k])
+		w.param(f, "s", w.S, sv)
 		fp := w.param(f, "f", w.FN, fv)
 		pp := w.param(f, "p", w.P, pv)
 		c := &ssa.Call{}
@@ -586,6 +620,13 @@ func (w *verifPtrWorld) transport(t int, v ssa.Value, other ssa.Value, variant i
 		}
 		w.Cells = append(w.Cells, c1, f.Params[0])
 		return q
+	case ptCallViaLibrary:
+		// q = pprof.Do(id_k, v) : the callback is invoked by a function of a package whose path starts with "runtime/"
+		cb := w.idFns[variant]
+		q := w.call(w.libDo, []ssa.Value{cb, v}, w.P, w.libDo)
+		w.Calls = append(w.Calls, verifPtrCall{w.libDo.Blocks[0].Instrs[0].(*ssa.Call), cb})
+		w.Params = append(w.Params, w.libDo.Params[1], cb.Params[0])
+		return q
 	case ptInvokeCallback:
 		// var i I = T_k{} ; i.run(id_k', v)  (result-less interface call taking a function value) ; q = G
 		tp := w.alloc(w.namedT[variant], "recv")
@@ -595,12 +636,14 @@ func (w *verifPtrWorld) transport(t int, v ssa.Value, other ssa.Value, variant i
 		c := &ssa.Call{}
 		c.Call.Value = iv
 		c.Call.Method = w.iRun
-		c.Call.Args = []ssa.Value{cb, v}
+		sp := w.alloc(w.S, "opts")
+		w.store(w.val(&ssa.FieldAddr{X: sp, Field: 1}, w.PP), other)
+		c.Call.Args = []ssa.Value{w.load(sp, w.S), cb, v}
 		w.val(c, types.NewTuple())
 		run := w.runT[variant]
 		w.Calls = append(w.Calls, verifPtrCall{c, run})
 		w.Calls = append(w.Calls, verifPtrCall{run.Blocks[0].Instrs[0].(*ssa.Call), cb})
-		w.Params = append(w.Params, run.Params[2], cb.Params[0])
+		w.Params = append(w.Params, run.Params[3], cb.Params[0])
 		w.Cells = append(w.Cells, w.global)
 		// a second, direct use of G as a value keeps a value node for it
 		return w.load(w.val(&ssa.ChangeType{X: w.global}, w.PP), w.P)
